@@ -51,8 +51,13 @@ CLAIMED = {
               "token: whatever _FLOAT_RE.match takes from the argument text is exactly the grammar's `number` production under "
               "maximal munch, same lexeme and remainder, unless the match is followed by a dot (the grammar's trailing-dot forms, "
               "which the code rejects) (matchFloat_is_grammar_number); a conforming number is never skipped "
-              "(number_some_matchFloat_some); the flag scanner is the grammar's flag (matchBool_is_grammar_flag). Not yet proved "
-              "in Lean: the separator / grouping level of tokenizer = grammar and the full print/parse round trip. Round-trip pieces proved: matchFloat_complete (every well-formed decimal number followed by text that cannot continue it is matched in full — the converse of the prefix theorem) and splitSep_join (tokens without separators, each followed by a comma or space, are split back exactly)."),
+              "(number_some_matchFloat_some); the flag scanner is the grammar's flag (matchBool_is_grammar_flag); on a well-formed "
+              "separator run the grammar's optional comma-wsp and the code's [, ]+ split skip the same characters "
+              "(optCommaWsp_eq_split); and for every argument text of a command without flags, when _parse_args returns its "
+              "arguments are exactly what the grammar's number production reads off the separator-free runs, applied over and over "
+              "(parseArgs_reads_grammar_numbers, by induction over the peel loop; the one place the scanners differ, a bare integer "
+              "before a dot, makes the next match fail: bare_integer_before_dot_is_rejected). Not yet proved in Lean: the link from "
+              "these runs to the BNF recognizer's grouping (Spec.PathGrammar.parse), arcs, and the full print/parse round trip. Round-trip pieces proved: matchFloat_complete (every well-formed decimal number followed by text that cannot continue it is matched in full — the converse of the prefix theorem) and splitSep_join (tokens without separators, each followed by a comma or space, are split back exactly)."),
         note=("Trusted: Lean kernel; propext/Classical.choice/Quot.sound; Spec/PathGrammar.lean; translator; harness; CPython "
               "float(). The scanners are hand-written meanings of the regexes (equality of regex sources checked; semantics tied "
               "to Python re by exhaustive correspondence)."),
